@@ -1000,6 +1000,36 @@ def oracle(spec):
                             else:
                                 if got2 != got:
                                     fails.append(Failure("Opaque.resolve", "bound-changed-by-a-resolution-that-found-nothing", f"{got} -> {got2}"))
+            if not fails and k == "type" and isinstance(spec["t"], list) and spec["t"][0] in ("@sum", "@tuple", "@option", "@either"):
+                # a sum that was asked for its bound (and serialised) once, then EDITED IN PLACE — a linear field appended
+                # to its last row, and taken out again — reports the bound of what it holds at the time (seeded change
+                # C07-15: the bound memoised on the sum object)
+                from hugr import tys
+                from hugr.std.collections.array import Array
+
+                try:
+                    t = build_type(spec["t"])
+                    base = all_copyable(spec["t"])
+                    t.type_bound()
+                    t._to_serial_root().model_dump_json()
+                    rows = t.variant_rows
+                except Exception:  # noqa: BLE001
+                    rows = None
+                if rows:
+                    rows[-1].append(tys.Qubit)
+                    try:
+                        b1, a1 = t.type_bound(), Array(t, 2)._to_serial().bound
+                        rows[-1].pop()
+                        b2 = t.type_bound()
+                    except Exception as e:  # noqa: BLE001
+                        fails.append(Failure("Sum.type_bound", "bound-raises", f"after an in-place edit: {type(e).__name__}"))
+                    else:
+                        if b1 == TypeBound.Copyable or a1 == TypeBound.Copyable:
+                            fails.append(Failure("Sum.type_bound", "copyable-with-linear-constituent",
+                                                 f"a qubit appended to the last row after the bound had been asked: type_bound()={b1}, array over it serialised {a1}"))
+                        elif (b2 == TypeBound.Copyable) != base:
+                            fails.append(Failure("Sum.type_bound", "bound-does-not-follow-an-in-place-edit",
+                                                 f"the qubit removed again: type_bound()={b2}, all_copyable={base}"))
         elif k == "stddef":
             td = _loaded_def(spec["file"], spec["name"])
             s = ["@ext", bridge.typedef_to_spec(td), spec["args"]]
